@@ -15,12 +15,19 @@
 // one; after joining, a class that counts its c18_sharers (Modular<Log16> and the domains built over it) must count EXACTLY
 // before + T * iterations; phase B: the threads destroy their copies concurrently; the count must be back to `before`, and the
 // shared object must still give the reference digest.  what=count-live:<got>/<expected> | count-end:... | digest-<when>
+// Class "Config:<what>" (process-wide configuration the threads must SEE): the main thread calls a documented process-wide setter
+// BEFORE it starts the workers, computes the reference digest of the operations that depend on the setting, then T workers compute the
+// same digest: they must observe the main thread's setting.  <what> = flags (Rational::SetNoReduce / SetReduce by parameter), rmint
+// (rmint<K,MG>::init_module, a second set of moduli by parameter), domain (StaticElement<Modular<double>>::setDomain), seed-integer
+// (Integer::seeding, ONE worker draws: the generator is shared state, excluded from concurrent use), seed-recint (RecInt::srand).
+// A setting that became per-thread (thread_local) makes every worker disagree, deterministically.   what=config-<what>
 // `c18_threads --families` prints the family table (name <tab> call forms).
 #include "c16_probes.h"
 #include "qfield.h"
 #include <recint/recint.h>
 #include "c18_values.h"
 #include "modular-extended.h"
+#include "StaticElement.h"
 #include <thread>
 #include <atomic>
 #include <unistd.h>
@@ -213,7 +220,54 @@ static void c18_run_storm(const std::string& full, int P, int T, int K) {
     return;                             // (the shared object is deliberately not destroyed: a miscounted class would double-free here)
 }
 
+// (the library leaves the definition of the class static to the user of StaticElement)
+namespace Givaro { template<> Modular<double> StaticElement<Modular<double> >::_domain = Modular<double>(7.0); }
+static std::string c18_config_digest(const std::string& what) {
+    std::ostringstream o;
+    if (what == "flags") { c18::fam_rational_arith(o); c18::fam_rational_cstor(o); }
+    else if (what == "rmint") c18::fam_rmint_all(o);
+    else if (what == "domain") {
+        typedef StaticElement<Modular<double> > S;
+        for (int i = 1; i < 40; ++i) { S x(3 * i + 1), y(5 * i + 2), z; z = x * y; o << (double)z << ","; z = x + y; o << (double)z << ","; z = x - y; o << (double)z << ",";
+                                       z = x; z *= y; z += x; o << (double)z << "," << (x == y) << x.isZero() << " "; }
+    }
+    else if (what == "seed-integer") { for (int i = 0; i < 20; ++i) { Integer r; Integer::random(r, (int)(20 + 3 * i)); o << r << ","; } o << Integer::random_lessthan(Integer("1000000007")) << " "; }
+    else if (what == "seed-recint") { for (int i = 0; i < 20; ++i) { RecInt::ruint<7> x; RecInt::rand(x); o << x << ","; RecInt::rint<6> y; RecInt::rand(y); o << y << " "; } }
+    return o.str();
+}
+static void c18_config_set(const std::string& what, int P) {
+    if (what == "flags") { if (P & 1) Rational::SetNoReduce(); else Rational::SetReduce(); }
+    else if (what == "rmint") {
+        c18::c18_rmint_modules();
+        if (P & 1) { using namespace RecInt; rmint<6, MG_ACTIVE>::init_module(ruint<6>((uint64_t)1000000007ULL)); rmint<6, MG_INACTIVE>::init_module(ruint<6>((uint64_t)65521ULL));
+                     rmint<7, MG_ACTIVE>::init_module(ruint<7>((uint64_t)0xffffffffffffffc5ULL)); rmint<7, MG_INACTIVE>::init_module(ruint<7>((uint64_t)4294967311ULL)); }
+    }
+    else if (what == "domain") StaticElement<Modular<double> >::setDomain(Modular<double>((P & 1) ? 101.0 : 65521.0));
+    else if (what == "seed-integer") Integer::seeding((uint64_t)(12345 + P));
+    else if (what == "seed-recint") RecInt::srand((RecInt::limb)(4242 + P));
+}
+static void c18_run_config(const std::string& full, int P, int T, int iters) {
+    const std::string what = full.substr(7);
+    const bool seed = what.compare(0, 5, "seed-") == 0;
+    if (what != "flags" && what != "rmint" && what != "domain" && !seed) { printf("%s %d %d X unknown-class\n", full.c_str(), P, T); return; }
+    // the scenario must be able to tell the settings apart: the other parameter value gives another digest
+    c18_config_set(what, P ^ 1); const std::string other = c18_config_digest(what);
+    c18_config_set(what, P);     const std::string ref = c18_config_digest(what);          // sequential run, main thread
+    if (other == ref) { printf("%s %d %d X settings-not-distinguishable\n", full.c_str(), P, T); return; }
+    if (seed) { T = 1; iters = 1; c18_config_set(what, P); }                              // re-seed: the worker must draw the same sequence
+    std::atomic<int> bad(0), bt(-1), bi(-1);
+    std::vector<std::thread> th;
+    for (int t = 0; t < T; ++t) th.push_back(std::thread([&, t]() {
+        for (int i = 0; i < iters; ++i) if (c18_config_digest(what) != ref) { if (!bad.exchange(1)) { bt = t; bi = i; } }
+    }));
+    for (size_t t = 0; t < th.size(); ++t) th[t].join();
+    if (!seed && !bad && c18_config_digest(what) != ref) { bad = 1; }
+    if (bad) printf("%s %d %d DIFF thread=%d iter=%d what=config-%s\n", full.c_str(), P, T, (int)bt, (int)bi, what.c_str());
+    else printf("%s %d %d ok\n", full.c_str(), P, T);
+}
+
 static void c18_run_case(const std::string& cls, int P, int T, int iters, bool nocopy) {
+    if (cls.compare(0, 7, "Config:") == 0) { c18_run_config(cls, P, T, iters); return; }
     if (cls.compare(0, 10, "CopyStorm:") == 0) { c18_run_storm(cls, P, T, iters); return; }
     if (cls == "Mixed<values>" || cls == "MixedRotate<values>") { c18_run_mixed(cls, P, T, iters, cls[5] == 'R'); return; }
     Any* shared = make18(cls, P);
